@@ -20,6 +20,13 @@ Verdict(e) ==
         \cup (IF Len(e.vars) = e.num THEN {} ELSE {"wrong_number_of_variables"})
         \cup (IF Cardinality(SetOfS(e.vars)) = Len(e.vars) THEN {} ELSE {"variables_not_distinct"})
         \cup (IF SetOfS(e.vars) \cap SetOfS(e.exclude) = {} THEN {} ELSE {"excluded_variable_returned"})
+    [] e.typ = "templates" ->
+        \* (variable, exponent) keys: the requested number, pairwise distinct, none excluded, never the exponent 1
+        IF e.outcome = "gave_up" THEN {} ELSE IF e.outcome # "ok" THEN {"get_rand_term_templates_raises"} ELSE
+        (IF Len(e.keys) = e.num THEN {} ELSE {"wrong_number_of_templates"})
+        \cup (IF Cardinality(SetOfS(e.keys)) = Len(e.keys) THEN {} ELSE {"templates_not_distinct"})
+        \cup (IF SetOfS(e.keys) \cap SetOfS(e.exclude) = {} THEN {} ELSE {"excluded_template_returned"})
+        \cup (IF \A k \in 1..Len(e.keys) : e.keys[k][2] # 1 THEN {} ELSE {"template_with_exponent_one"})
     [] e.typ = "split" ->
         (IF e.outcome = "ok" /\ e.lower + e.higher = e.value /\ 0 <= e.lower /\ e.lower <= e.higher THEN {} ELSE {"split_does_not_sum"})
     [] e.typ = "number" ->
